@@ -256,10 +256,12 @@ Definition handle_newline (s : st) : res (st * node) :=
 (* ------------------------------------------------------------------ backticks *)
 Definition maxbt : nat := N.to_nat maxbackticks.
 
-(* the loop of scan_to_closing_backtick from position p; run = length of the backtick run that ends at p.
+(* the loop of scan_to_closing_backtick from position p; run = length of the backtick run that ends at p;
+   fr = scanned_for_backticks (constant during the loop: it is only set on the way out): once a scan has reached
+   the end of the input the table is final and no run is recorded any more.
    Result: (Some endpos | None, backticks, scanned) *)
-Fixpoint stcb_loop (rest : bytes) (p run otl : nat) (b : list nat) : option nat * list nat * bool :=
-  let finish_run (b : list nat) := if Nat.leb run maxbt then list_set b run (p - run) else b in
+Fixpoint stcb_loop (rest : bytes) (p run otl : nat) (fr : bool) (b : list nat) : option nat * list nat * bool :=
+  let finish_run (b : list nat) := if negb fr && Nat.leb run maxbt then list_set b run (p - run) else b in
   match rest with
   | [] =>
     match run with
@@ -268,12 +270,12 @@ Fixpoint stcb_loop (rest : bytes) (p run otl : nat) (b : list nat) : option nat 
            if Nat.eqb run otl then (Some p, b', false) else (None, b', true)
     end
   | c :: r =>
-    if beqb c x60 then stcb_loop r (S p) (S run) otl b
+    if beqb c x60 then stcb_loop r (S p) (S run) otl fr b
     else
       match run with
-      | O => stcb_loop r (S p) 0 otl b
+      | O => stcb_loop r (S p) 0 otl fr b
       | _ => let b' := finish_run b in
-             if Nat.eqb run otl then (Some p, b', false) else stcb_loop r (S p) 0 otl b'
+             if Nat.eqb run otl then (Some p, b', false) else stcb_loop r (S p) 0 otl fr b'
       end
   end.
 
@@ -282,7 +284,7 @@ Definition scan_to_closing_backtick (s : st) (otl : nat) : option nat * st :=
   if Nat.ltb maxbt otl then (None, s)
   else if memo && scanned s && Nat.leb (nth otl (bt s) 0) (pos s) then (None, s)
   else
-    let '(r, b', sc) := stcb_loop (skipn (pos s) inp) (pos s) 0 otl (bt s) in
+    let '(r, b', sc) := stcb_loop (skipn (pos s) inp) (pos s) 0 otl (scanned s) (bt s) in
     (r, set_bt s b' (scanned s || sc)).
 
 Definition handle_backticks (s : st) : res (st * node) :=
@@ -1417,7 +1419,9 @@ Fixpoint pea_scan (fuel : nat) (contents : bytes) (i : nat) (bo : Z)
   end.
 
 (* process_email_autolinks on (text, sourcepos, spx): the new text and sourcepos of the node, and the nodes
-   inserted after it (Link, Text, Link, Text ..) *)
+   inserted after it (Link, Text, Link, Text ..).  Since fix 89410a4 the Rust function is a loop over the
+   original text (start offset, last link); this recursion on the remaining text is its functional reading:
+   one unfolding = one iteration, `rem` = contents_str[start..], `asp` = the loop variable sp. *)
 Fixpoint pea (fuel : nat) (contents : bytes) (sp : sourcepos) (spx : list piece)
   : res (bytes * sourcepos * list piece * list node) :=
   match fuel with
@@ -1591,18 +1595,18 @@ Definition parse_reference_inline (inp : bytes) : res (option (nat * option (byt
             end in
           let p5 := skip_spaces inp p4 in
           let (p6, ok) := skip_line_end inp p5 in
-          (* the title variable survives the rewind *)
+          (* `title.clear()` where the position is rewound: the title does not survive the rewind *)
           let fin :=
-            if ok then Some p6
+            if ok then Some (p6, title)
             else match title with
                  | [] => None
                  | _ => let q := skip_spaces inp beforetitle in
                         let (q2, ok2) := skip_line_end inp q in
-                        if ok2 then Some q2 else None
+                        if ok2 then Some (q2, @nil byte) else None
                  end in
           match fin with
           | None => Ok None
-          | Some pend =>
+          | Some (pend, title) =>
             let nlab := normalize_label fold lab true in
             match nlab with
             | [] => Ok (Some (pend, None))
